@@ -12,11 +12,18 @@ of the semi-major-axis sequence.
 A second, cheap space decides the ``EllipseGeometry.to_polar`` twin
 (scalar / vectorised) on ALL integer points of a 9x9 window x 24 geometries.
 
-Sizes / measured cost (user+sys): quick 252 fits (220 on the 81x101 frame + 32 of
-the block 'area' on the 131x151 frame, 2.4 CPU-s each) + 7 776 to_polar calls,
-~5.5 CPU-min; thorough 2 752 fits (2 416 + 336 'area') + the same to_polar space,
-~70 CPU-min (1.35 CPU-s per small-frame fit, extrapolated from a 41-unit spread and the
-1 764-fit calibration run = 2 494 CPU-s; the 336 'area' fits measured: 13 CPU-min).
+Sizes / measured cost (user+sys): quick 316 lattice points (220 + 64 'start' / 'growth-via-geometry'
+on the 81x101 frame, 7 of them not run: inadmissible start; + 32 of the block 'area' on the 131x151
+frame, 2.4 CPU-s each) + 7 776 to_polar calls, ~6.5 CPU-min (the 57 new fits: 56 CPU-s in-process);
+thorough 3 392 lattice points (2 416 + 384 'start' + 256 'growth-via-geometry' + 336 'area') + the
+same to_polar space, ~85 CPU-min (1.35 CPU-s per small-frame fit, extrapolated from a 41-unit spread
+and the 1 764-fit calibration run = 2 494 CPU-s; the 336 'area' fits measured: 13 CPU-min).
+
+The blocks 'start' and 'growth-via-geometry' enumerate WHERE the sma sequence starts and HOW its growth
+rule is given: fit_image(sma0=None | value) x EllipseGeometry.sma (equal to / above / below the start, on
+and off the growth grid, beyond maxsma, below minsma) x step x linear x {minsma} x {maxsma}, and the
+growth mode taken from EllipseGeometry(linear_growth=) with fit_image's ``linear`` left at None.  A given
+sma0 overrides the geometry's sma completely; the returned list must be ONE growth sequence through the start.
 
 The block 'area' exists because integrmode 'mean' / 'median' replaces every sector
 holding <= 6 pixels by a bilinear sample: with step 0.1 that is every isophote
@@ -28,7 +35,11 @@ Oracle clauses (violation keys are ``clause|site``):
   raises, empty-list      fit_image must return isophotes for a start inside the basin
   sorted                  strictly increasing sma
   sma-range               every sma within [minsma, maxsma]
-  sma-sequence            the documented sequence sma0 (1+step)^k / sma0 + k step is fitted (well-sampled range only)
+  sma-sequence            the documented sequence sma0 (1+step)^k / sma0 + k step is fitted (well-sampled range only);
+                          sma0 = fit_image's keyword when given, else the geometry's sma
+  sma-start               the list holds an isophote at that start sma
+  sma-growth              consecutive returned sma (> 0) are exactly one growth step apart (every isophote: structural);
+                          sites <linear | geometric>:<sma0=None | sma0-kwarg:geometry.sma{==,<,>}sma0>
   fixed                   fix_center / fix_pa / fix_eps (kwargs or EllipseGeometry) keep the initial value on EVERY isophote
   accuracy                centre, eps, PA (mod pi), intensity of every isophote in the well-sampled range (an
                           input-only rule, no stop code) within max(3 x reported error, 10 x calibrated deviation);
@@ -48,7 +59,8 @@ from ..snapshot import digest
 PROPERTY = 'C20'
 LEVEL = 'exploration'
 RULE = ('union of full Cartesian products (blocks) over {eps, PA, centre fraction, radial law, scale, initial geometry, '
-        'growth, integrmode, fix flags, minsma/maxsma, frame}; every lattice point is one real Ellipse.fit_image call on a '
+        'growth, integrmode, fix flags, minsma/maxsma, frame, fit_image sma0 keyword, EllipseGeometry.sma, growth mode via '
+        'kwargs / geometry}; every lattice point is one real Ellipse.fit_image call on a '
         'fresh image/geometry/Ellipse; lattice points are distinct by construction (duplicates between blocks are '
         'removed by the case key); a fit case is non-trivial when at least one returned isophote lies in the '
         'well-sampled range computed from the INPUT geometry and was compared with the truth; the block "area" '
@@ -56,19 +68,28 @@ RULE = ('union of full Cartesian products (blocks) over {eps, PA, centre fractio
         'sma 25-50) exists because the area integrators fall back to bilinear sampling in every sector with <= 6 '
         'pixels, i.e. on all isophotes below sma ~ 26 at step 0.1: its fits are non-trivial only when isophotes '
         'classified area-integrated (>= half of the sectors >= 8 px, from the input sma/eps/step) were compared with '
-        'the truth, under a tolerance calibrated for that class; to_polar: all 81 integer '
+        'the truth, under a tolerance calibrated for that class; the block "start" is the product fit_image(sma0 = None | '
+        'value) x EllipseGeometry.sma (equal / above / below the start, on / off the growth grid, beyond maxsma, below minsma) '
+        'x step x linear x range {minsma 5, 0} x {maxsma 30, None}, the block "growth-via-geometry" gives the growth mode as '
+        'EllipseGeometry(linear_growth=) with linear=None; a lattice point whose start sma (sma0 if given, else '
+        'geometry.sma) is not strictly between minsma and maxsma or not well-sampled violates the documented precondition '
+        'of sma0 and is counted as skipped, not run; on every fit the returned sma list must be one growth sequence through '
+        'the start (clauses sma-start, sma-growth), whatever the geometry.sma; to_polar: all 81 integer '
         'points of a 9x9 window x 24 geometries x 4 call forms, non-trivial when the point is not the centre')
 ASSUMPTIONS = ['the analytic renderer below (pixel-centre sampling of I(r_ell)) defines the truth; numpy trig is trusted',
                'scipy.optimize.leastsq / LSQUnivariateSpline are trusted (used inside photutils)',
                'the continuum between lattice points is not covered; frames are 81x101 with sma0 = 10 and 131x151 with '
-               'sma0 = 30 (block area)',
+               'sma0 = 30 (block area); other starts (fit_image sma0 7 / 10 / 14, geometry.sma 3 ... 40) only in the blocks '
+               'start / growth-via-geometry (eps 0.5, PA 30, exponential law, bilinear)',
+               'Ellipse(image) without a geometry (default geometry at the frame centre) and sma0 = 0 (treated as None by '
+               'fit_image) are not enumerated',
                'tolerances are calibrated on the pinned tree (x10 margin) per ellipticity / integration class; '
                'area-integrated isophotes per ellipticity / integrmode / centre class, with a x5 margin on the centre of '
                'pixel-centred galaxies (no seed-dependent real enters their geometry; the calibration set is the '
                'enumerated set)',
                'every EllipseGeometry of the lattice keeps the default astep = 0.1 (annulus 0.1 sma wide; 0.1 px with linear '
                'growth, so linear-growth fits never reach the sector scan of the area integrators); geometries built with '
-               'their own astep / linear_growth are not enumerated',
+               'their own astep are not enumerated (linear_growth: block growth-via-geometry, same astep)',
                'at eps 0.8 fewer than half of the sectors of any isophote up to sma 50 hold > 6 pixels: no isophote of '
                'the lattice is classified area-integrated there (they are judged in the general area class)']
 
@@ -103,10 +124,24 @@ SIZE = [1.0, 1.5, 2.5]               # multiplies the scale length of the radial
 AREA_MODE = ['mean', 'median']
 AREA_EPS = [0.2, 0.5, 0.05]          # eps 0.8: fewer than half of the sectors hold > 6 pixels up to sma 50 (sector_fraction)
 FIXVIA = ['kwargs', 'geometry']      # fix_* given to fit_image(), or to the EllipseGeometry constructor
+# -- where the sma sequence starts: fit_image(sma0=...) x EllipseGeometry.sma -------------------------------------
+# fit_image(sma0=None) starts at the sma of the geometry handed to Ellipse(); a given sma0 overrides it, and then the
+# geometry's own sma must not matter at all (documented: "the process then resumes from the first fitted ellipse (at
+# sma0) inwards").  SMA0 None = keyword not passed; GEOMSMA None = the frame's sma0 (10).  The geometry's sma is taken
+# equal to / above / below the start, on and off the growth grid through the start, beyond maxsma, below minsma:
+SMA0 = [None, 10.0, 14.0, 7.0]
+GEOMSMA = [10.0, 18.0,      # 18 = 10 + 8 x 1 = 10 + 4 x 2 = 14 + 4 x 1 = 14 + 2 x 2: on every linear grid of the block
+           40.0,            # beyond maxsma = 30 (and beyond the well-sampled range of the frame)
+           3.0,             # below minsma = 5
+           14.4,            # = 10 x 1.2^2: on the geometric grid (step 0.2) through 10
+           6.5]             # generic, below every start
+GROWTH_START = ['geom0.2', 'lin2.0', 'geom0.1', 'lin1.0']
+RANGE_PRODUCT = ['5-30', 'default', '0-30', '5-none']     # {minsma 5, 0} x {maxsma 30, None}; 'default' = 0-none
+GROWVIA = ['kwargs', 'geometry']     # fit_image(linear=...), or EllipseGeometry(linear_growth=...) with linear not passed
 
 DEFAULT = {'eps': 0.5, 'pa_deg': 30, 'cen': 'frac', 'law': 'exp', 'init': 'shape', 'growth': 'geom0.1',
            'mode': 'bilinear', 'fix': 'none', 'range': '5-30', 'fixvia': 'kwargs',
-           'size': 1.0, 'frame': 'std'}
+           'size': 1.0, 'frame': 'std', 'sma0': None, 'geomsma': None, 'growvia': 'kwargs'}
 
 # each block: the axes that are varied (full product); every other axis takes DEFAULT or the block's override
 BLOCKS = {
@@ -120,6 +155,11 @@ BLOCKS = {
         # isophotes that really use the area integrators: 6 per fit (sma 30 ... 48.3) at eps 0.2, 4 at eps 0.5
         ('area', {'eps': [0.2, 0.5], 'pa_deg': [30, 120], 'cen': ['int', 'frac'], 'mode': AREA_MODE, 'size': [1.0, 2.5]},
          {'frame': 'large', 'range': RANGE_LARGE}),
+        # start of the sma sequence: sma0 keyword x geometry.sma x growth x range (admissible starts only, see admissible())
+        ('start', {'sma0': SMA0[:3], 'geomsma': GEOMSMA[:4], 'growth': GROWTH_START[:2], 'range': RANGE_PRODUCT[:2]}, {}),
+        # growth mode taken from the geometry (fit_image's linear left at None) x start given either way
+        ('growth-via-geometry', {'growth': GROWTH_START, 'sma0': [None, 14.0], 'range': RANGE_PRODUCT[:2]},
+         {'growvia': 'geometry'}),
     ],
     'thorough': [
         ('geometry', {'eps': EPS, 'pa_deg': PA_DEG, 'cen': CEN, 'law': LAW, 'init': ['truth', 'shape', 'centre']},
@@ -133,6 +173,9 @@ BLOCKS = {
         ('law', {'eps': [0.2, 0.8], 'pa_deg': [60, 150], 'law': LAW, 'cen': CEN}, {'range': 'default'}),
         ('area', {'eps': AREA_EPS, 'pa_deg': PA_DEG, 'cen': ['int', 'frac'], 'mode': AREA_MODE, 'size': [1.0, 2.5],
                   'init': ['shape', 'centre']}, {'frame': 'large', 'range': RANGE_LARGE}),
+        ('start', {'sma0': SMA0, 'geomsma': GEOMSMA, 'growth': GROWTH_START, 'range': RANGE_PRODUCT}, {}),
+        ('growth-via-geometry', {'growth': GROWTH_START, 'sma0': SMA0, 'geomsma': GEOMSMA[:4], 'range': RANGE_PRODUCT},
+         {'growvia': 'geometry'}),
     ],
 }
 
@@ -217,7 +260,40 @@ def initial_geometry(case, t):
     pa = pa % math.pi
     if pa == 0.0:
         pa = math.pi
-    return {'x0': x0, 'y0': y0, 'sma': frame_of(case)['sma0'], 'eps': eps, 'pa': pa}
+    return {'x0': x0, 'y0': y0, 'sma': geometry_sma(case), 'eps': eps, 'pa': pa}
+
+
+def geometry_sma(case):
+    """sma of the EllipseGeometry handed to Ellipse() (replay files written before the axis existed have no key)."""
+    g = case.get('geomsma')
+    return float(g) if g is not None else frame_of(case)['sma0']
+
+
+def start_sma(case):
+    """Documented start of the sma sequence: fit_image's sma0 when given, else the geometry's sma."""
+    s0 = case.get('sma0')
+    return float(s0) if s0 is not None else geometry_sma(case)
+
+
+def parse_range(case):
+    """-> (minsma, maxsma) as passed to fit_image, or None for the defaults (minsma 0, maxsma None)."""
+    if case['range'] == 'default':
+        return None
+    mn, mx = case['range'].split('-')
+    return float(mn), (None if mx == 'none' else float(mx))
+
+
+def admissible(case, t):
+    """Documented precondition on the start (input-only): sma0 'must not be the minimum or maximum semimajor axis
+    length, but something in between' and its isophote must have 'a clearly defined geometry' (here: well-sampled).
+    Returns None or the reason the lattice point is not run."""
+    s = start_sma(case)
+    mn, mx = parse_range(case) or (0.0, None)
+    if not (s > mn and (mx is None or s < mx)):
+        return 'start sma not strictly between minsma and maxsma (documented precondition of sma0)'
+    if not well_sampled(s, case, t):
+        return 'start sma outside the well-sampled range of the frame (no clearly defined geometry to start from)'
+    return None
 
 
 def fit_kwargs(case):
@@ -227,9 +303,11 @@ def fit_kwargs(case):
         kw.update(step=float(g[4:]), linear=False)
     else:
         kw.update(step=float(g[3:]), linear=True)
-    if case['range'] != 'default':
-        mn, mx = case['range'].split('-')
-        kw.update(minsma=float(mn), maxsma=float(mx))
+    rg = parse_range(case)
+    if rg is not None:
+        kw.update(minsma=rg[0], maxsma=rg[1])
+    if case.get('sma0') is not None:
+        kw.update(sma0=float(case['sma0']))
     if case['fixvia'] == 'kwargs':
         kw.update(fix_flags(case))
     return kw
@@ -269,8 +347,11 @@ def evaluate(case, seed, with_model=True):
         with warnings.catch_warnings():
             warnings.simplefilter('ignore')
             gkw = fix_flags(case) if case['fixvia'] == 'geometry' else {}
+            ckw = dict(kw)
+            if case.get('growvia', 'kwargs') == 'geometry':      # growth mode from the geometry: linear stays None
+                gkw['linear_growth'] = ckw.pop('linear')
             geom = EllipseGeometry(g0['x0'], g0['y0'], g0['sma'], g0['eps'], g0['pa'], **gkw)
-            iso = Ellipse(img, geom).fit_image(**kw)
+            iso = Ellipse(img, geom).fit_image(**ckw)
     except Exception as e:  # the property says a list is returned
         m['exc'] = repr(e)
         m['image_untouched'] = digest(img) == before
@@ -375,23 +456,47 @@ def area_integrated(sma, case, t):
 
 
 def expected_smas(case):
-    """The documented sequence: sma0 (1+step)^k outwards while < maxsma,
-    sma0 / (1+step)^k inwards while > max(minsma, 0.5) (linear: +- step)."""
+    """The documented sequence through the start s0 (fit_image's sma0 when given, else the geometry's sma):
+    s0 (1+step)^k outwards while < maxsma, s0 / (1+step)^k inwards while > max(minsma, 0.5) (linear: +- step).
+    A value within 1e-12 (relative) of minsma / maxsma is a tie (the text says "until the semimajor axis reaches
+    maxsma / minsma"): not demanded here, allowed by the clause sma-range."""
     kw = fit_kwargs(case)
     step, lin = kw['step'], kw['linear']
     mx = kw.get('maxsma')
     mn = kw.get('minsma', 0.0)
     out = []
-    sma0 = frame_of(case)['sma0']
+    sma0 = start_sma(case)
     s = sma0
-    while s < (mx if mx else 400.0):
+    while s < (mx * (1.0 - 1e-12) if mx else 400.0):
         out.append(s)
         s = s + step if lin else s * (1.0 + step)
     s = sma0 - step if lin else sma0 / (1.0 + step)
-    while s > max(mn, 0.5):
+    while s > max(mn * (1.0 + 1e-12), 0.5):
         out.append(s)
         s = s - step if lin else s / (1.0 + step)
     return sorted(out)
+
+
+# the implementation accumulates the sma by repeated + step / * (1 + step) in doubles (a few ulp per isophote, < 1e-13
+# relative over 100 isophotes); two different sequences of the lattice differ by >= 1e-2 relative somewhere
+SMA_RTOL = 1e-9
+
+
+def start_site(case):
+    """Named predicate on the case: how the start of the sequence was given."""
+    if case.get('sma0') is None:
+        return 'sma0=None'
+    g, s0 = geometry_sma(case), start_sma(case)
+    return 'sma0-kwarg:geometry.sma' + ('==' if g == s0 else '>' if g > s0 else '<') + 'sma0'
+
+
+def growth_breaks(pos, case):
+    """Consecutive pairs of the returned positive smas that are not one growth step apart."""
+    kw = fit_kwargs(case)
+    step, lin = kw['step'], kw['linear']
+    if lin:
+        return [(a, b) for a, b in zip(pos, pos[1:]) if not abs(b - a - step) <= SMA_RTOL * max(abs(b), step)]
+    return [(a, b) for a, b in zip(pos, pos[1:]) if not (a > 0 and abs(b / a - (1.0 + step)) <= SMA_RTOL)]
 
 
 MODEL_SLACK = 0.5   # pixels, see model_excess
@@ -549,7 +654,8 @@ def judge(acc, case, m, seed):
     vcase = dict(case, kind='fit')
     fat = fixed_at_truth(case)
     cls = integr_class(case)
-    sample = vcase if (case['pa_deg'] == 120 and case['eps'] == 0.8) else None
+    sample = vcase if ((case['pa_deg'] == 120 and case['eps'] == 0.8)
+                       or (case.get('sma0') == 14.0 and case.get('geomsma') == 18.0)) else None
     if m['exc']:
         acc.case(nontrivial=False, sample=sample)
         acc.violation('raises', 'fit_image:' + m['exc'].split('(')[0], vcase, m['exc'], 'an IsophoteList')
@@ -577,10 +683,26 @@ def judge(acc, case, m, seed):
                       [round(s, 4) for s in out], f'all sma within [{mn}, {mx}]')
     # documented construction of the sma sequence, demanded only inside the well-sampled range
     want = [s for s in expected_smas(case) if well_sampled(s, case, t)]
-    missing = [s for s in want if not any(abs(s - q) <= 1e-9 * s for q in sma)]
+    missing = [s for s in want if not any(abs(s - q) <= SMA_RTOL * s for q in sma)]
     if missing:
         acc.violation('sma-sequence', f'{case["growth"]}:{case["range"]}', vcase, [round(s, 4) for s in missing],
                       'every sma0*(1+step)^k (or sma0+k*step) of the well-sampled range is fitted')
+    # the list is ONE growth sequence through the documented start (sma0 if given, else geometry.sma): it contains the
+    # start, and consecutive isophotes are exactly one step apart ("increased by a factor of (1 + step) ... then resumes
+    # from the first fitted ellipse (at sma0) inwards, in steps of 1 / (1 + step)"; linear: +- step).  Structural, so
+    # demanded of every returned isophote; the isophote at sma 0 that minsma = 0 adds is not part of the sequence.
+    pos = [s for s in sma if s > 0]
+    s0 = start_sma(case)
+    ssite = start_site(case)
+    if pos and not any(abs(s - s0) <= SMA_RTOL * s0 for s in pos):
+        acc.violation('sma-start', ssite, vcase, [round(s, 4) for s in pos],
+                      f'an isophote at the start sma {s0} (fit_image sma0={case.get("sma0")}, geometry.sma={g0["sma"]})')
+    breaks = growth_breaks(pos, case)
+    if breaks:
+        acc.violation('sma-growth', f'{"linear" if kw["linear"] else "geometric"}:{ssite}', vcase,
+                      [[round(a, 4), round(b, 4)] for a, b in breaks],
+                      f'consecutive sma one growth step apart ({case["growth"]}) on the sequence through {s0}',
+                      'returned sma: ' + ' '.join(f'{s:.4f}' for s in sma))
     # -- fixed parameters honoured exactly ------------------------------------
     fx = fixed_set(case)
     for r in rows:
@@ -755,10 +877,24 @@ def run_unit(unit, tier, seed):
             to_polar_geometry(acc, gi)
         return acc
     block, case = enumerate_cases(tier)[unit['index']]
+    if run_case(acc, case, seed):
+        acc.counters['fits:' + block] += 1
+    return acc
+
+
+def run_case(acc, case, seed):
+    """One lattice point: not run when the start violates the documented precondition (input-only rule)."""
+    why = admissible(case, truth_geometry(case, seed))
+    if why:
+        acc.skip(why)
+        return False
     m = evaluate(case, seed)
     judge(acc, case, m, seed)
-    acc.counters['fits:' + block] += 1
-    return acc
+    if case.get('sma0') is not None:
+        acc.counters['fits_with_sma0_keyword'] += 1
+        if geometry_sma(case) != start_sma(case):
+            acc.counters['fits_with_sma0_keyword_differing_from_geometry_sma'] += 1
+    return True
 
 
 def replay(case, seed):
@@ -767,8 +903,7 @@ def replay(case, seed):
     if case.pop('kind', 'fit') == 'to_polar':
         to_polar_geometry(acc, case['geometry'])
         return acc
-    m = evaluate(case, seed)
-    judge(acc, case, m, seed)
+    run_case(acc, case, seed)
     return acc
 
 
@@ -798,11 +933,20 @@ def describe(tier, seed):
                          'block area: isophotes that really use the area integrators': ai,
                          'distinct_fits': len(enumerate_cases(tier)),
                          'law parameters (scale in px)': LAW_PAR,
+                         'start of the sma sequence': {
+                             'fit_image sma0 (None = keyword not passed)': SMA0, 'EllipseGeometry.sma': GEOMSMA,
+                             'growth': GROWTH_START, 'range (minsma-maxsma; default = 0-none)': RANGE_PRODUCT,
+                             'growth mode given via': GROWVIA,
+                             'lattice points not run (start violates the documented precondition of sma0)':
+                                 sum(1 for _, c in enumerate_cases(tier) if admissible(c, truth_geometry(c, seed)))},
                          'init': {'truth': 'exact', 'shape': 'eps-0.1 (eps+0.1 at eps=0.05) and PA+6deg',
                                   'centre': 'x+1.0, y-0.7', 'eps': 'eps-0.1 only'},
                          'to_polar': {'centres': TP_CENTRES, 'pa': TP_PA, 'window': '9x9 integer points',
                                       'forms': TP_FORMS + ['integer-dtype array vs float array']}},
-            'bound': {'well_sampled': f'sma >= {SMA_MIN}, sma*(1-eps) >= {B_MIN}, bounding box of the outer annulus edge '
+            'bound': {'admissible start': 'minsma < start < maxsma and well_sampled(start); start = sma0 keyword if given, else '
+                                          'geometry.sma',
+                      'sma-growth / sma-start tolerance (relative)': SMA_RTOL,
+                      'well_sampled': f'sma >= {SMA_MIN}, sma*(1-eps) >= {B_MIN}, bounding box of the outer annulus edge '
                                       f'>= {EDGE} px inside the frame (all from the input geometry)',
                       'area_integrated': f'integrmode mean/median and >= {AREA_FRACTION_MIN:.0%} of the sectors of the isophote have '
                                          f'nominal area >= {SECTOR_PIX:g} px (integrator rule: sectors with <= 6 pixels fall back '
